@@ -8,3 +8,5 @@ def run(ctx):
     eng = c_export.engine()
     ctx.verify(eng, c_export.VERIFY, min_obligations=c_export.MIN_OBLIGATIONS)
     ctx.assumptions.extend(c_export.ASSUMPTIONS)
+    from contracts import c_conntarget as cc
+    ctx.verify(cc.engine(), cc.VERIFY, min_obligations={cc.KEY: 10})
